@@ -437,15 +437,16 @@ func verifC38Pregenerate(r *verifutil.Rand, n int) {
 			continue
 		}
 		wg.Add(1)
-		go func(op string) {
+		go func(op string, k int) {
 			defer wg.Done()
 			sem <- struct{}{}
+			time.Sleep(time.Duration(k%verifC38Parallel) * 15 * time.Millisecond) // no thundering herd
 			a := verifC38Run(op)
 			<-sem
 			mu.Lock()
 			verifC38Cache[op] = a
 			mu.Unlock()
-		}(op)
+		}(op, len(verifC38Cache))
 	}
 	wg.Wait()
 }
